@@ -40,6 +40,15 @@ def run_case(cs):
             tree[(s + "/" if s else "") + "f%d" % i + world.gen_name(rng, rng.choice(["plain", "space", "uni"]))] = rng.randbytes(rng.randint(1, 20)) + bytes([i])
     if not any(v is not None for v in tree.values()):
         tree["only.bin"] = b"x"
+    if skel and rng.random() < 0.4:
+        # neighbours of a nested history's folder whose names merely begin like it (K_proxy/, K.txt, K0): they belong
+        # to the outer history
+        s0 = rng.choice([s for s in skel])
+        tree[s0 + "_proxy"] = None
+        tree[s0 + "_proxy/p.bin"] = b"proxy" + rng.randbytes(3)
+        tree[s0 + ".txt"] = b"notes" + rng.randbytes(3)
+        tree[s0 + "0"] = b"zero" + rng.randbytes(3)
+        cs.count("files_next_to_nested_history_with_its_name_as_prefix")
     if rng.random() < 0.04:
         for i in range(rng.randint(80, 200)):
             tree["plain/%03d-%s" % (i, world.gen_name(rng, rng.choice(["long", "uni", "space", "plain"])))] = bytes([i % 251]) * (1 + i % 3)
